@@ -68,6 +68,13 @@ class OscoreSiteWrapper(interfaces.Resource):
             # ie. if no object_seccurity present
             await self._inner_site.render_to_pipe(pipe)
             return
+        except oscore.DecodeError:
+            # The option is there but can not be taken apart; same as when
+            # that shows only later, below
+            if request.mtype == aiocoap.CON:
+                raise error.BadOption("Failed to decode COSE")
+            else:
+                return
 
         if request.code not in (FETCH, POST):
             raise error.MethodNotAllowed
